@@ -188,8 +188,8 @@ def gen_raw_ops(rng):
 
 def run_raw_ops(ops):
     """Executes the operations on the real TrialBackend code; returns (polls, error)."""
-    from fetch_scripted import ScriptedPollBackend
-    b = ScriptedPollBackend()
+    from fetch_scripted import FakeProcLocalBackend
+    b = FakeProcLocalBackend()
     polls, err = [], None
     for op in ops:
         try:
@@ -222,6 +222,7 @@ def run_raw_ops(ops):
         except KeyError:
             err = "UnknownId"
             break
+    b.close()
     return polls, err
 
 
@@ -356,13 +357,13 @@ def quiet():
 
 
 def run_tuner_generic(case):
-    """Real Tuner.run over ScriptedPollBackend + ScriptedScheduler. Returns the observation dict."""
-    from fetch_scripted import ScriptedPollBackend, ScriptedScheduler
+    """Real Tuner.run over FakeProcLocalBackend + ScriptedScheduler. Returns the observation dict."""
+    from fetch_scripted import FakeProcLocalBackend, ScriptedScheduler
     from syne_tune import Tuner
     from syne_tune.results_callback import StoreResultsCallback
     pol = Policy(rng=random.Random(case["seed"]) if case.get("script") is None else None,
                  script=case.get("script"), params=case["params"])
-    b = ScriptedPollBackend()
+    b = FakeProcLocalBackend()
     b.world_fn = pol.world
     sch = ScriptedScheduler(pol, b)
     cb = StoreResultsCallback()
@@ -375,6 +376,8 @@ def run_tuner_generic(case):
             tuner.run()
         except Exception as e:  # noqa
             crash = "%s: %s" % (type(e).__name__, str(e)[:200])
+        finally:
+            b.close()
     # events for the model
     evs, out, polls, reported, timeline = [], [], [], {}, []
     cur_poll = None
